@@ -104,6 +104,46 @@ type session struct {
 	indexed []bool
 	snaps   []db.Snapshot
 	iters   []db.Iterator
+	held    map[int][]heldBytes // per iterator: every slice Key() / Value() handed out, with its content at that moment
+}
+
+// heldBytes: a result the iterator handed to the caller. Key() and Value() results belong to the caller (only
+// UncopiedValue is documented as invalidated by the next move): they must keep their bytes while the iterator
+// moves on or is closed. The model's results are immutable values, so this is part of the tie, not of the model.
+type heldBytes struct {
+	got  []byte
+	want string
+	what string
+}
+
+// heldChanged reports (and forgets) results of iterator h whose bytes changed since they were handed out
+func (s *session) heldChanged(h int) string {
+	for _, x := range s.held[h] {
+		if string(x.got) != x.want {
+			delete(s.held, h)
+			return ":earlier-" + x.what + "-result-changed-under-the-caller"
+		}
+	}
+	return ""
+}
+
+func (s *session) iterObs(h int, ret bool) string {
+	it := s.iters[h]
+	out := iterOut(it, ret)
+	if it.Valid() {
+		if s.held == nil {
+			s.held = map[int][]heldBytes{}
+		}
+		k := it.Key()
+		v, err := it.Value()
+		if len(s.held[h]) < 64 {
+			s.held[h] = append(s.held[h], heldBytes{k, string(k), "Key"})
+			if err == nil {
+				s.held[h] = append(s.held[h], heldBytes{v, string(v), "Value"})
+			}
+		}
+	}
+	return out + s.heldChanged(h)
 }
 
 func getOut(r db.KeyValueReader, k []byte) string {
@@ -241,19 +281,15 @@ func (s *session) step(o Op) (out string) {
 		s.iters = append(s.iters, it)
 		return "h:" + strconv.Itoa(len(s.iters)-1)
 	case "first":
-		it := s.iters[o.H]
-		return iterOut(it, it.First())
+		return s.iterObs(o.H, s.iters[o.H].First())
 	case "next":
-		it := s.iters[o.H]
-		return iterOut(it, it.Next())
+		return s.iterObs(o.H, s.iters[o.H].Next())
 	case "prev":
-		it := s.iters[o.H]
-		return iterOut(it, it.Prev())
+		return s.iterObs(o.H, s.iters[o.H].Prev())
 	case "seek":
-		it := s.iters[o.H]
-		return iterOut(it, it.Seek(unhex(o.A)))
+		return s.iterObs(o.H, s.iters[o.H].Seek(unhex(o.A)))
 	case "iclose":
-		return errOut(s.iters[o.H].Close())
+		return errOut(s.iters[o.H].Close()) + s.heldChanged(o.H)
 	case "helper":
 		res := "ok"
 		body := func(w db.Batch) error {
@@ -302,7 +338,7 @@ func wipe(d db.KeyValueStore) {
 	hx.Must(err)
 	var keys [][]byte
 	for ok := it.First(); ok; ok = it.Next() {
-		keys = append(keys, it.Key())
+		keys = append(keys, append([]byte{}, it.Key()...))
 	}
 	it.Close()
 	for _, k := range keys {
